@@ -42,6 +42,9 @@ TRUSTED = [
     "every h11 behaviour subject only to its documented contract that its methods raise nothing but h11.ProtocolError",
     "asyncio contract: callbacks run to completion on one thread; data_received is never called with b'' nor after "
     "transport.close(); connection_lost once. Handler bodies may raise any Exception subclass (not BaseException)",
+    "BaseException subclasses are outside the pump model; exceptions that surface through the event loop's exception handler "
+    "(done-callbacks, timers, tasks run for a connection, incl. CancelledError) and calls that do not return are judged by the "
+    "harness oracle on the real code (time-limited calls, loop exception handler), not by a theorem",
     "the frame layer (hap_crypto) is C04/C05's: streams run as plaintext (hap_crypto None) before and inside a session",
     "harness/ref/httpc.py (h11 client re-parse, reference request count with an h11 server), generators, canonicalisers",
 ]
@@ -231,12 +234,12 @@ def instrument(conn: base.Conn, world: base.World):
     def ready(task):
         try:
             cb = {"cb": "ready", "ok": hx(task.result())}
-        except Exception as ex:  # noqa: BLE001
+        except BaseException as ex:  # noqa: BLE001  (recording only; the real callback runs below regardless)
             cb = {"cb": "ready", "err": type(ex).__name__}
         cbs.append(cb)
         try:
             return orig_ready(task)
-        except Exception as ex:  # noqa: BLE001
+        except BaseException as ex:  # noqa: BLE001
             cb["escaped"] = type(ex).__name__
             raise
         finally:
@@ -344,7 +347,7 @@ def gen_request(rng, world: base.World, verified: bool) -> Tuple[bytes, Dict[str
         # what may legitimately change the accessory / pairing / srp state
         meta["effectful"] = (verified and m in ("PUT", "POST")) or p in ("/pair-setup", "/pair-verify")
     if kind == "junk-body":
-        body = rng.choice(base.junk_bodies(rng, 12))
+        body = rng.choice(base.junk_bodies(rng, 18))
         meta["effectful"] = p in ("/pair-setup", "/pair-verify")
     if kind == "target":
         target = rng.choice(WEIRD_TARGETS + [_printable(rng, rng.choice([1, 3, 20, 200])), b"/" + _printable(rng, 9000)])
@@ -433,6 +436,10 @@ def boundary_streams(world: base.World) -> List[Tuple[List[bytes], str]]:
         ([g(b"/accessories", b"Expect: 100-continue\r\n")], "Expect: 100-continue"),
         ([httpc.http_request(b"POST", b"/pairings", httpc.pairings_remove(base.CANARY_CTRL_ID)) + acc],
          "remove own pairing then GET (pipelined)"),
+    ] + [
+        ([httpc.http_request(b"POST", path, tlv) + acc], f"{path.decode()} with TLV {tlv.hex()} then GET")
+        for path in (b"/pair-setup", b"/pair-verify", b"/pairings")
+        for tlv in (b"\x06", b"\x06\x01\x01\x00", b"\x06\x01\x03\x05", b"\x06\x01\x01\x03\xff\x01\x02", b"\x00\x01\x05\x06")
     ]
 
 
@@ -465,8 +472,7 @@ def gen_stream(rng, world: base.World, verified: bool) -> Tuple[List[bytes], Dic
 def run_stream(world: base.World, chunks: List[bytes], verified: bool, with_uuid: bool, record: bool = True,
                probe: bool = True) -> Dict[str, Any]:
     """Feed the chunks to a fresh connection of `world`; observe everything the oracle needs."""
-    loop_errors: List[str] = []
-    world.loop.set_exception_handler(lambda loop, c: loop_errors.append(type(c.get("exception")).__name__ + ": " + str(c.get("message"))))
+    loop_errors = world.loop_errors  # what the loop reports for callbacks / tasks it runs for the connections
     bystander = world.connect()
     by_before = (list(bystander.t.ops), bystander.t.closed)
     conn = world.connect()
@@ -480,6 +486,7 @@ def run_stream(world: base.World, chunks: List[bytes], verified: bool, with_uuid
     calls, disp, cbs = instrument(conn, world) if record else ([], [], [])
     digest0 = world.digest()
     escaped: List[Tuple[str, str]] = []
+    hung: List[str] = []
     fed = b""
     for ch in chunks:
         if conn.t.closed:
@@ -487,14 +494,16 @@ def run_stream(world: base.World, chunks: List[bytes], verified: bool, with_uuid
         cb = {"cb": "data", "data": hx(ch)}
         cbs.append(cb)
         fed += ch
-        try:
-            conn.p.data_received(ch)
-        except Exception as ex:  # noqa: BLE001
-            cb["escaped"] = type(ex).__name__
-            escaped.append(("data_received", type(ex).__name__))
+        exc, hung_now = base.guarded(conn.p.data_received, ch)
+        if exc:
+            cb["escaped"] = exc
+            escaped.append(("data_received", exc))
         calls.append(["cb_end"])
         cb["writes"] = sum(1 for o in conn.t.ops if o[0] == "write")
         cb["closing"] = conn.t.closed
+        if hung_now:
+            hung.append("data_received")
+            break
         world.drain()
         if cb.get("escaped"):
             break  # a real transport is torn down by the loop after a callback raised
@@ -511,15 +520,16 @@ def run_stream(world: base.World, chunks: List[bytes], verified: bool, with_uuid
     }
     # still answering? (only meaningful if the peer is at a message boundary and nothing escaped)
     obs["probe"] = None
-    if probe and not conn.t.closed and not escaped and ref["at_boundary"] and len(resps) == ref["complete"]:
+    if probe and not conn.t.closed and not escaped and not hung and ref["at_boundary"] and len(resps) == ref["complete"]:
         n0 = len(conn.t.ops)
         cb = {"cb": "data", "data": hx(PROBE)}
         cbs.append(cb)
-        try:
-            conn.p.data_received(PROBE)
-        except Exception as ex:  # noqa: BLE001
-            cb["escaped"] = type(ex).__name__
-            escaped.append(("data_received(probe)", type(ex).__name__))
+        exc, hung_now = base.guarded(conn.p.data_received, PROBE)
+        if hung_now:
+            hung.append("data_received(probe)")
+        if exc:
+            cb["escaped"] = exc
+            escaped.append(("data_received(probe)", exc))
         calls.append(["cb_end"])
         cb["writes"] = sum(1 for o in conn.t.ops if o[0] == "write")
         cb["closing"] = conn.t.closed
@@ -529,17 +539,21 @@ def run_stream(world: base.World, chunks: List[bytes], verified: bool, with_uuid
         obs["probe"] = {"responses": len(pr), "trailing": ptrail, "closed": conn.t.closed}
     # the peer goes away
     cbs.append({"cb": "lost"})
-    try:
-        conn.p.connection_lost(None)
-    except Exception as ex:  # noqa: BLE001
-        cbs[-1]["escaped"] = type(ex).__name__
-        escaped.append(("connection_lost", type(ex).__name__))
+    exc, hung_now = base.guarded(conn.p.connection_lost, None)
+    if hung_now:
+        hung.append("connection_lost")
+    if exc:
+        cbs[-1]["escaped"] = exc
+        escaped.append(("connection_lost", exc))
     calls.append(["cb_end"])
     cbs[-1]["writes"] = sum(1 for o in conn.t.ops if o[0] == "write")
     cbs[-1]["closing"] = conn.t.closed
     world.drain()
+    if world.hung:
+        hung.append(world.hung)
+    obs["hung"] = hung
     obs["registered_after_lost"] = conn.p in world.connections.values()
-    obs["loop_errors"] = loop_errors
+    obs["loop_errors"] = list(loop_errors)
     # (snapshot callbacks are C03's observable, not accessory state)
     obs["digest_changed"] = [k for k, v in world.digest().items() if digest0[k] != v and k != "snapshot_calls"]
     # the bystander: untouched and alive
@@ -593,8 +607,8 @@ def run_multi(world_args, specs: List[Optional[Dict[str, Any]]], schedule: List[
     next chunk)."""
     world = base.World(*world_args)
     try:
-        loop_errors: List[str] = []
-        world.loop.set_exception_handler(lambda loop, c: loop_errors.append(type(c.get("exception")).__name__ + ": " + str(c.get("message"))))
+        loop_errors = world.loop_errors
+        hung: List[str] = []
         conns: Dict[int, base.Conn] = {}
         rec: Dict[int, Any] = {}
         for k, sp in enumerate(specs):
@@ -622,14 +636,16 @@ def run_multi(world_args, specs: List[Optional[Dict[str, Any]]], schedule: List[
             cb = {"cb": "data", "data": hx(ch)}
             cbs.append(cb)
             fed[k] += ch
-            try:
-                c.p.data_received(ch)
-            except Exception as ex:  # noqa: BLE001
-                cb["escaped"] = type(ex).__name__
-                escaped[k].append(("data_received", type(ex).__name__))
+            exc, hung_now = base.guarded(c.p.data_received, ch)
+            if exc:
+                cb["escaped"] = exc
+                escaped[k].append(("data_received", exc))
             calls.append(["cb_end"])
             cb["writes"] = sum(1 for o in c.t.ops if o[0] == "write")
             cb["closing"] = c.t.closed
+            if hung_now:
+                hung.append(f"data_received of connection {k}")
+                break
             world.drain()
         digest1 = _state_digest(world)
         per: Dict[int, Dict[str, Any]] = {}
@@ -642,11 +658,12 @@ def run_multi(world_args, specs: List[Optional[Dict[str, Any]]], schedule: List[
         for k, c in conns.items():
             calls, _disp, cbs = rec[k]
             cbs.append({"cb": "lost"})
-            try:
-                c.p.connection_lost(None)
-            except Exception as ex:  # noqa: BLE001
-                cbs[-1]["escaped"] = type(ex).__name__
-                escaped[k].append(("connection_lost", type(ex).__name__))
+            exc, hung_now = base.guarded(c.p.connection_lost, None)
+            if hung_now:
+                hung.append(f"connection_lost of connection {k}")
+            if exc:
+                cbs[-1]["escaped"] = exc
+                escaped[k].append(("connection_lost", exc))
             calls.append(["cb_end"])
             cbs[-1]["writes"] = sum(1 for o in c.t.ops if o[0] == "write")
             cbs[-1]["closing"] = c.t.closed
@@ -656,7 +673,8 @@ def run_multi(world_args, specs: List[Optional[Dict[str, Any]]], schedule: List[
             per[k]["registered_after_lost"] = c.p in world.connections.values()
             per[k]["final_ops"] = [[o[0]] + ([hx(o[1])] if o[0] == "write" else []) for o in c.t.ops]
             per[k]["transcript"] = {"h11": calls, "disp": disp, "callbacks": cbs}
-        return {"per": per, "digest0": digest0, "digest1": digest1, "loop_errors": loop_errors}
+        return {"per": per, "digest0": digest0, "digest1": digest1, "loop_errors": list(loop_errors),
+                "hung": hung + ([world.hung] if world.hung else [])}
     finally:
         world.close()
 
@@ -719,8 +737,11 @@ def judge_multi(ctx: Ctx, wa, specs, schedule, out: Dict[str, Any], replay: Dict
             ))
         if o["closed"] and o["registered"]:
             problems.append(("C19:closed-connection-still-registered", f"connection {k} closed but still registered"))
-    for e in out["loop_errors"]:
-        problems.append(("C19:exception-in-loop-callback", f"the event loop reported: {e}"))
+    for where in out.get("hung", []):
+        problems.insert(0, ("C19:callback-does-not-return", f"{where} did not return"))
+    for cls, msg in out["loop_errors"]:
+        if cls not in ("KeyboardInterrupt", "SystemExit"):
+            problems.append((f"C19:exception-escapes-callback:{cls}", f"the event loop reported {cls}: {msg[:160]}"))
     exp = _merge_expected(out["digest0"], [solos[k]["digest1"] for k in sorted(solos)])
     if exp is not None and exp != out["digest1"]:
         diff = [f"{sec}.{key}: {out['digest1'][sec].get(key)!r} (own requests give {exp[sec].get(key)!r})"
@@ -854,6 +875,8 @@ def run_multi_cases(ctx: Ctx, n_random: int, lines, metas, obss):
     finally:
         probe_world.close()
     for wa, specs, schedule, label in todo:
+        if base.hung_budget_exhausted():
+            break
         out = run_multi(wa, specs, schedule)
         replay = {"kind": "multi", "world": list(wa), "schedule": schedule, "label": label,
                   "specs": [{"verified": sp["verified"], "with_uuid": sp["with_uuid"], "chunks": [hx(c) for c in sp["chunks"]]} for sp in specs]}
@@ -871,6 +894,139 @@ def run_multi_cases(ctx: Ctx, n_random: int, lines, metas, obss):
             obss.append(o2)
 
 
+# --------------------------------------------------------------------------- a delayed response is pending
+
+ENDINGS = ["peer-disconnect", "close()", "idle-sweep", "server-stop", "none"]
+OUTCOMES = ["completes", "fails", "times-out"]
+
+
+def run_pending(spec: Dict[str, Any]) -> Dict[str, Any]:
+    """Inside a session: a valid POST /resource whose snapshot is still being taken, then the
+    connection ends (or not) and the snapshot task completes / fails / times out, in either order.
+    Every call is time-limited; whatever the loop reports for the callbacks it runs is collected."""
+    world = base.World(True, spec["shape"], virtual=True, gated=True)
+    try:
+        conn = base._verified_conn(world, ("10.4.0.1", 4101))
+        bystander = world.connect()
+        escaped: List[Tuple[str, str]] = []
+        hung: List[str] = []
+
+        def call(name, fn, *a):
+            exc, h = base.guarded(fn, *a)
+            if exc:
+                escaped.append((name, exc))
+            if h:
+                hung.append(name)
+            world.spin()
+
+        raw = httpc.http_request(b"POST", b"/resource", base._snapshot_body(world, "same"))
+        call("data_received", conn.p.data_received, raw)
+        for _ in range(200):
+            if world.snapshot_calls:
+                break
+            time.sleep(0.005)
+            world.spin(2)
+        pending_before = not any(o[0] == "write" for o in conn.t.ops)
+
+        def end():
+            e = spec["ending"]
+            if e == "peer-disconnect":
+                call("connection_lost", conn.p.connection_lost, None)
+            elif e == "close()":
+                call("close", conn.p.close)
+                call("connection_lost", conn.p.connection_lost, None)
+            elif e == "idle-sweep":
+                call("check_idle", conn.p.check_idle, time.time() + 91 * 3600)
+                call("connection_lost", conn.p.connection_lost, None)
+            elif e == "server-stop":
+                srv = world.driver.http_server
+                srv._connection_cleanup = world.loop.call_later(300, lambda: None)  # what async_start arms
+                srv.server = type("ListeningSocket", (), {"close": lambda self: None})()
+                call("HAPServer.async_stop", srv.async_stop)
+                call("connection_lost", conn.p.connection_lost, None)
+                call("connection_lost(bystander)", bystander.p.connection_lost, None)
+
+        def outcome():
+            o = spec["outcome"]
+            if o == "fails":
+                world.snapshot_fail = True
+            if o == "times-out":
+                world.advance(10.0)  # RESPONSE_TIMEOUT is 9 s
+            else:
+                world.open_gate()
+            world.drain()
+
+        for step in ((end, outcome) if spec["order"] == "end-first" else (outcome, end)):
+            step()
+            world.spin()
+        world.open_gate()
+        world.drain()
+        world.advance(1.0)
+        if spec["ending"] == "none":
+            written = b"".join(o[1] for o in conn.t.ops if o[0] == "write")
+            resps, trailing = httpc.parse_responses(written, [b"POST"], eof=False)
+            call("connection_lost", conn.p.connection_lost, None)
+        else:
+            written = b"".join(o[1] for o in conn.t.ops if o[0] == "write")
+            resps, trailing = httpc.parse_responses(written, [b"POST"], eof=True)
+        world.drain()
+        by_ok = True
+        if spec["ending"] != "server-stop":
+            r = bystander.send(PROBE, b"GET")
+            by_ok = len(r["responses"]) == 1 and not r["escaped"] and not r["hung"]
+        if world.hung:
+            hung.append(world.hung)
+        return {"escaped": escaped, "hung": hung, "loop_errors": list(world.loop_errors), "responses": resps, "trailing": trailing,
+                "pending_before": pending_before, "bystander_ok": by_ok}
+    finally:
+        world.close()
+
+
+def pending_problems(spec: Dict[str, Any], o: Dict[str, Any]) -> List[Tuple[str, str]]:
+    problems: List[Tuple[str, str]] = []
+    for where in o["hung"]:
+        problems.append(("C19:callback-does-not-return", f"{where} did not return"))
+    for where, cls in o["escaped"]:
+        problems.append((f"C19:exception-escapes-callback:{cls}", f"{cls} propagates out of {where}"))
+    for cls, msg in o["loop_errors"]:
+        if cls not in ("KeyboardInterrupt", "SystemExit"):
+            problems.append((f"C19:exception-escapes-callback:{cls}",
+                             f"the event loop reported {cls} for a callback / task it ran for the connection: {msg[:160]}"))
+    if o["trailing"]:
+        problems.append(("C19:malformed-response", o["trailing"]))
+    if len(o["responses"]) > 1:
+        problems.append(("C19:more-responses-than-requests", f"{len(o['responses'])} responses for one request"))
+    if spec["ending"] == "none" and len(o["responses"]) != 1:
+        problems.append(("C19:request-unanswered", "the connection stayed open but the delayed response never came"))
+    if not o["bystander_ok"]:
+        problems.append(("C19:other-connection-affected", "a bystander connection stopped answering"))
+    return problems
+
+
+def run_pending_cases(ctx: Ctx):
+    st = ctx.stats
+    shapes = ["async"] if ctx.quick else ["async", "sync", "bridge"]
+    for shape in shapes:
+        for ending in ENDINGS:
+            for outcome in OUTCOMES:
+                for order in ("end-first", "outcome-first"):
+                    if base.hung_budget_exhausted():
+                        return
+                    if ending == "none" and order == "outcome-first":
+                        continue
+                    spec = {"kind": "pending", "shape": shape, "ending": ending, "outcome": outcome, "order": order,
+                            "label": f"pending snapshot, {ending}, task {outcome} ({order})"}
+                    o = run_pending(spec)
+                    probs = pending_problems(spec, o)
+                    st.case(["pending", spec], True)
+                    st.hit("op", f"pending:{ending}")
+                    st.hit("outcome", "pending:" + ("PROBLEM" if probs else f"task-{outcome}:clean"))
+                    if not o["pending_before"]:
+                        st.hit("outcome", "pending:snapshot-was-NOT-in-flight")
+                    if probs and not any(f.signature == probs[0][0] for f in ctx.failures):
+                        ctx.fail(probs[0][0], "; ".join(d for _, d in probs[:3]) + f" [{spec['label']}]", spec)
+
+
 # --------------------------------------------------------------------------- oracle
 
 
@@ -878,15 +1034,20 @@ def problems_of(obs: Dict[str, Any], meta: Dict[str, Any], world_args, verified,
     """The property on the observed behaviour: list of (signature, description), gravest first."""
     problems: List[Tuple[str, str]] = []
     ref, resps = obs["ref"], obs["responses"]
+    for where in obs.get("hung", []):
+        problems.append(("C19:callback-does-not-return",
+                         f"{where} did not return within {base.CALL_LIMIT[0]:.0f} s: the request is never answered nor the connection "
+                         "closed, and the event-loop thread serves nobody else meanwhile"))
     for where, cls in obs["escaped"]:
         problems.append((f"C19:exception-escapes-callback:{cls}", f"{cls} propagates out of {where}"))
-    for e in obs["loop_errors"]:
-        problems.append(("C19:exception-in-loop-callback", f"the event loop reported: {e}"))
+    for cls, msg in obs["loop_errors"]:
+        if cls not in ("KeyboardInterrupt", "SystemExit"):
+            problems.append((f"C19:exception-escapes-callback:{cls}", f"the event loop reported {cls} for a callback / task it ran for the connection: {msg[:160]}"))
     if obs["trailing"]:
         problems.append(("C19:malformed-response", f"bytes written do not parse as complete responses: {obs['trailing']}"))
     if len(resps) > ref["complete"]:
         problems.append(("C19:more-responses-than-requests", f"{len(resps)} responses for {ref['complete']} complete requests"))
-    if not obs["closed"] and not obs["escaped"] and len(resps) != ref["complete"]:
+    if not obs["closed"] and not obs["escaped"] and not obs.get("hung") and len(resps) != ref["complete"]:
         problems.append(("C19:request-unanswered", f"connection left open with {len(resps)} responses for {ref['complete']} complete requests"))
     if obs["probe"] is not None and not obs["probe"]["closed"] and obs["probe"]["responses"] != 1:
         problems.append(("C19:stops-answering", f"open connection at a message boundary gave {obs['probe']['responses']} responses to a probe request"))
@@ -931,6 +1092,16 @@ def minimise(world_args, verified, with_uuid, chunks, meta, signature):
     stream = b"".join(chunks)
     reqs = list(meta.get("requests", []))
     best_chunks, best_reqs = chunks, reqs
+    if signature == "C19:callback-does-not-return":
+        saved, saved_limit = base.HUNG[0], base.CALL_LIMIT[0]
+        base.CALL_LIMIT[0] = 2.0
+        try:
+            for rq in (reqs if b"".join(reqs) == stream and len(reqs) >= 2 else []):
+                if fails([rq], [rq]):
+                    return [rq], [rq]
+        finally:
+            base.HUNG[0], base.CALL_LIMIT[0] = saved, saved_limit
+        return best_chunks, best_reqs
     if len(chunks) > 1 and fails([stream], reqs):
         best_chunks = [stream]
     if len(reqs) >= 2 and b"".join(reqs) == stream and best_chunks == [stream]:
@@ -1033,9 +1204,11 @@ def cases(ctx: Ctx, n_random: int):
             for chunks, label in boundary_streams(probe_world):
                 stream = b"".join(chunks)
                 meta = {"kinds": ["boundary"], "label": label,
-                        "effectful": verified and (b"PUT /characteristics" in stream or b"POST /pairings" in stream),
+                        "effectful": (verified and (b"PUT /characteristics" in stream or b"POST /pairings" in stream)) or b"/pair-" in stream,
                         "requests": []}
                 out.append(((True, "sync"), verified, True, chunks, meta))
+                if label.startswith("/pair-setup"):  # pair-setup only parses its body while unpaired
+                    out.append(((False, "sync"), verified, True, chunks, dict(meta, label=label + " (unpaired accessory)")))
         for i in range(n_random):
             wa = rng.choice(WORLDS)
             verified = rng.random() < 0.5
@@ -1059,6 +1232,9 @@ def run(ctx: Ctx, model: bool = True, n: Optional[int] = None, n_multi: Optional
     lines, metas, obss = [], [], []
     order_budget = ctx.n(60, 1500)
     for (wa, verified, with_uuid, chunks, meta) in cases(ctx, n):
+        if base.hung_budget_exhausted():
+            st.notes.append("stream generation stopped after two calls that did not return")
+            break
         world = base.World(*wa)
         try:
             obs = run_stream(world, chunks, verified, with_uuid)
@@ -1098,6 +1274,7 @@ def run(ctx: Ctx, model: bool = True, n: Optional[int] = None, n_multi: Optional
                       "world": list(wa)})
         obss.append(obs)
     run_multi_cases(ctx, ctx.n(220, 4000) if n_multi is None else n_multi, lines, metas, obss)
+    run_pending_cases(ctx)
     if not model:
         return
     answers = run_model_parallel("C19", lines)
@@ -1119,6 +1296,18 @@ def search(ctx: Ctx):
 
 
 def replay(ctx: Ctx, r):
+    if r.get("kind") == "pending":
+        o = run_pending(r)
+        probs = pending_problems(r, o)
+        print("scenario:", r["label"], "shape:", r["shape"])
+        print("snapshot was in flight:", o["pending_before"], "responses:", o["responses"], "escaped:", o["escaped"],
+              "hung:", o["hung"], "loop reports:", o["loop_errors"])
+        if probs:
+            ctx.fail(probs[0][0], "; ".join(d for _, d in probs), r)
+        for f in ctx.failures:
+            print("FAILS:", f.signature, f.description)
+        print("verdict:", "property violated on this input" if ctx.failures else "holds on this input")
+        return 1 if ctx.failures else 0
     if r.get("kind") == "multi":
         wa = tuple(r["world"])
         specs = [{"verified": sp["verified"], "with_uuid": sp["with_uuid"], "chunks": [bytes.fromhex(c) for c in sp["chunks"]]}
